@@ -45,7 +45,7 @@ STUB = ["the scenario files live in the run's own scratch directory on the real 
 ASSUMPTIONS = ["run-spec overrides are generated for DSL models only, as the property says",
                "stop times lie on the grid of (start, dt)", "constants given as strings are numeric literals"]
 FAULT_KINDS = []
-PROBES = ["session_over_scenarios_on_different_grids", "step_settings_expire_with_the_session", "sparse_observation", "observed_together_with_sibling", "sibling_on_another_grid", "channel_dict", "channel_files", "files_split_over_two", "base_constants_inherited", "base_points_inherited", "xmile_sourced_scenario",
+PROBES = ["files_read_again_by_a_second_bptk", "session_over_scenarios_on_different_grids", "step_settings_expire_with_the_session", "sparse_observation", "observed_together_with_sibling", "sibling_on_another_grid", "channel_dict", "channel_files", "files_split_over_two", "base_constants_inherited", "base_points_inherited", "xmile_sourced_scenario",
           "runspec_override_at_registration", "setting_between_two_runs", "setting_after_reset", "string_valued_constant",
           "scenario_without_overrides"]
 EXHAUSTIVE = {"quick": False, "thorough": False}
@@ -209,10 +209,13 @@ def write_files(cfg, workdir):
     return mod, written
 
 
-def setup_files(case, log, res, workdir):
+def setup_files(case, log, res, workdir, reuse=False):
     import BPTK_Py
     cfg = case["config"]
-    mod, written = write_files(cfg, workdir)
+    if reuse:
+        mod, written = None, []         # the files (and the module they name) are there already: read them as they are
+    else:
+        mod, written = write_files(cfg, workdir)
     if workdir not in sys.path:
         sys.path.insert(0, workdir)
     import importlib
@@ -241,6 +244,7 @@ def setup_files(case, log, res, workdir):
             w.shadow[("smX", sname)] = {"template": "T4", "base": 0, "constants": consts, "points": dict(sdict.get("points", {})),
                                         "start": xm["start"], "stop": xm["stop"], "dt": xm["dt"], "tainted": set()}
     w._cleanup = (mod, written)
+    w.reg_shadow = {k: copy.deepcopy(v) for k, v in w.shadow.items() if k[0] != "smX"}
     return w
 
 
@@ -311,6 +315,20 @@ def execute(case):
                         holder.append(w2)
                         return w2
                     c06.run_history(w, case, res, log, PROPERTY, twin_factory=twin)
+                    if not res.violations:
+                        # the unchanged files are read again by a new bptk() in the same process (what a server's factory does for
+                        # every new instance): each scenario is what its FILE says, whatever the first reader was given later
+                        res.probe("files_read_again_by_a_second_bptk")
+                        r3 = RunResult()
+                        w3 = setup_files(case, EventLog(), r3, workdir, reuse=True)
+                        holder.append(w3)
+                        for key in sorted(w3.shadow):
+                            if key[0] == "smX":
+                                continue
+                            if not w3.check_scenario(key, "files read again by a second bptk()"):
+                                break
+                        for v in r3.violations:
+                            res.violate("C07.scenario-differs-from-fresh-model", dict(v.detail, clause=v.clause, reader="a second bptk() on the unchanged files"))
                     for w2 in holder:
                         cleanup_files(w2)
             finally:
